@@ -358,5 +358,214 @@ Lemma nodup_set : forall K p n, NoDup (keys K) -> NoDup (keys (cnt_set K p n)).
 Proof.
   intros K p n Hnd. destruct (cnt_get K p) as [m|] eqn:E.
   - rewrite (keys_set_old _ _ _ m); assumption.
-  - rewrite keys_set_new by assumption. apply NoDup_app_single; [exact Hnd|]. apply cnt_get_none_keys. exact E.
+  - rewrite keys_set_new by assumption. apply (Permutation_NoDup (Permutation_cons_append (keys K) p)).
+    constructor; [|exact Hnd]. apply cnt_get_none_keys. exact E.
 Qed.
+
+Lemma nodup_del : forall K p, NoDup (keys K) -> NoDup (keys (cnt_del K p)).
+Proof. intros. rewrite keys_del. apply NoDup_filter. assumption. Qed.
+
+Lemma nkids_pos : forall K c d, In c (keys K) -> is_child c d = true -> 1 <= nkids K d.
+Proof.
+  intros K c d Hin Hc. unfold nkids.
+  assert (H : In c (filter (fun c => is_child c d) (keys K))) by (apply filter_In; auto).
+  destruct (filter (fun c => is_child c d) (keys K)); [contradiction|]. simpl. lia.
+Qed.
+
+Lemma nkids_pos_inv : forall K d, 1 <= nkids K d -> exists c, In c (keys K) /\ is_child c d = true.
+Proof.
+  intros K d H. unfold nkids in H.
+  destruct (filter (fun c => is_child c d) (keys K)) as [|c l] eqn:E; [simpl in H; lia|].
+  assert (Hin : In c (filter (fun c => is_child c d) (keys K))) by (rewrite E; left; reflexivity).
+  apply filter_In in Hin. exists c. exact Hin.
+Qed.
+
+Lemma inK_set : forall K p n q, inK (cnt_set K p n) q = path_eqb p q || inK K q.
+Proof. intros. unfold inK. rewrite cnt_get_set. destruct (path_eqb p q); reflexivity. Qed.
+
+Lemma inK_del : forall K p q, inK (cnt_del K p) q = negb (path_eqb p q) && inK K q.
+Proof. intros. unfold inK. rewrite cnt_get_del. destruct (path_eqb p q); reflexivity. Qed.
+
+Lemma sfx_refl : forall d, sfx d d = true.
+Proof. intros. unfold sfx. rewrite path_eqb_refl. reflexivity. Qed.
+
+Lemma sfx_cons : forall a x d, sfx a d = true -> sfx a (x :: d) = true.
+Proof. intros a x d H. unfold sfx in *. simpl. rewrite H. apply orb_true_r. Qed.
+
+Lemma below_cons : forall a x d, below a (x :: d) = sfx a d.
+Proof. reflexivity. Qed.
+
+Section Dirs.
+Variable base : list path.
+
+Definition cnt_good (g : path -> nat) (K : list (path * nat)) (d : path) : Prop :=
+  cnt_get K d = mk (g d + nkids K d).
+Definition cr_ok (K : list (path * nat)) (created : list path) : Prop :=
+  forall q, mem_path q created = inK K q && negb (mem_path q base) && nonroot q.
+Definition er_ok (an : path -> bool) (K : list (path * nat)) (err : list path) : Prop :=
+  forall q, mem_path q err = an q && negb (inK K q) && negb (mem_path q base) && nonroot q.
+Definition dk_ok (an : path -> bool) (disk : list path) : Prop :=
+  forall q, mem_path q disk = an q && negb (mem_path q base) && nonroot q.
+
+(* the walk of started_building_file stops: the counter of [parent] was positive *)
+Lemma start_stop : forall g an0 (an1 : path -> bool) K cr er parent n,
+  NoDup (keys K) ->
+  (forall d, path_eqb parent d = false -> cnt_good g K d) ->
+  cnt_get K parent = Some n -> S n = g parent + nkids K parent ->
+  (forall q, inK K q = true -> an1 q = true) ->
+  cr_ok K cr -> er_ok an0 K er ->
+  let K1 := cnt_set K parent (S n) in
+  NoDup (keys K1) /\ (forall d, cnt_good g K1 d) /\ (forall q, inK K1 q = true -> an1 q = true) /\
+  cr_ok K1 cr /\ er_ok an0 K1 er.
+Proof.
+  intros g an0 an1 K cr er parent n Hnd Hgood Hget Hn Han Hcr Her K1.
+  assert (HinK : forall q, inK K1 q = inK K q).
+  { intro q. unfold K1. rewrite inK_set. destruct (path_eqb parent q) eqn:E; [|reflexivity].
+    apply path_eqb_eq in E. subst q. unfold inK. rewrite Hget. reflexivity. }
+  assert (Hkids : forall d, nkids K1 d = nkids K d) by (intro d; apply (nkids_set_old _ _ _ n); exact Hget).
+  split; [apply nodup_set; exact Hnd|]. split; [|split; [|split]].
+  - intro d. unfold cnt_good, K1. rewrite cnt_get_set. fold K1. rewrite Hkids.
+    destruct (path_eqb parent d) eqn:E.
+    + apply path_eqb_eq in E. subst d. rewrite <- Hn. reflexivity.
+    + apply Hgood. exact E.
+  - intros q Hq. apply Han. rewrite <- HinK. exact Hq.
+  - intro q. rewrite HinK. apply Hcr.
+  - intro q. rewrite HinK. apply Her.
+Qed.
+
+(* the walk goes on: [parent] had no counter *)
+Lemma start_step : forall cds g an0 (an1 : path -> bool) K cr er parent,
+  NoDup (keys K) ->
+  (forall d, path_eqb parent d = false -> cnt_good g K d) ->
+  cnt_get K parent = None -> g parent + nkids K parent = 1 ->
+  (forall q, inK K q = true -> an1 q = true) -> an1 parent = true ->
+  cr_ok K cr -> er_ok an0 K er ->
+  mem_path parent cds = negb (mem_path parent base) && nonroot parent ->
+  let K1 := cnt_set K parent 1 in
+  let cr2 := if mem_path parent cds then add_path parent cr else cr in
+  let er2 := if mem_path parent cds then del_path parent er else er in
+  NoDup (keys K1) /\ cnt_good g K1 parent /\
+  (forall d, path_eqb parent d = false -> is_child parent d = false -> cnt_good g K1 d) /\
+  (forall d, is_child parent d = true ->
+     1 <= g d + nkids K1 d /\ cnt_get K1 d = mk (g d + nkids K1 d - 1)) /\
+  (forall q, inK K1 q = true -> an1 q = true) /\
+  cr_ok K1 cr2 /\ er_ok an0 K1 er2 /\
+  (forall a, inK K1 a = false -> inK K a = false).
+Proof.
+  intros cds g an0 an1 K cr er parent Hnd Hgood Hget Hone Han Hanp Hcr Her Hcds K1 cr2 er2.
+  assert (Hkids : forall d, nkids K1 d = nkids K d + (if is_child parent d then 1 else 0))
+    by (intro d; apply nkids_set_new; exact Hget).
+  assert (HinKp : inK K parent = false) by (unfold inK; rewrite Hget; reflexivity).
+  split; [apply nodup_set; exact Hnd|]. split; [|split; [|split; [|split; [|split; [|split]]]]].
+  - unfold cnt_good, K1. rewrite cnt_get_set, path_eqb_refl. fold K1. rewrite Hkids, is_child_self.
+    rewrite Nat.add_0_r, Hone. reflexivity.
+  - intros d E Hc. unfold cnt_good, K1. rewrite cnt_get_set, E. fold K1. rewrite Hkids, Hc, Nat.add_0_r.
+    apply Hgood. exact E.
+  - intros d Hc. rewrite Hkids, Hc.
+    assert (E : path_eqb parent d = false).
+    { apply path_eqb_neq. intro Heq. subst d. rewrite is_child_self in Hc. discriminate. }
+    split; [lia|]. unfold K1. rewrite cnt_get_set, E.
+    replace (g d + (nkids K d + 1) - 1) with (g d + nkids K d) by lia. apply Hgood. exact E.
+  - intros q Hq. unfold K1 in Hq. rewrite inK_set in Hq. destruct (path_eqb parent q) eqn:E.
+    + apply path_eqb_eq in E. subst q. exact Hanp.
+    + apply Han. exact Hq.
+  - intro q. unfold K1. rewrite inK_set. unfold cr2. destruct (path_eqb parent q) eqn:E.
+    + apply path_eqb_eq in E. subst q. simpl. rewrite <- Hcds.
+      destruct (mem_path parent cds) eqn:E2.
+      * rewrite mem_add_path, path_eqb_refl. reflexivity.
+      * rewrite Hcr, HinKp. reflexivity.
+    + simpl. destruct (mem_path parent cds).
+      * rewrite mem_add_path, E. simpl. apply Hcr.
+      * apply Hcr.
+  - intro q. unfold K1. rewrite inK_set. unfold er2. destruct (path_eqb parent q) eqn:E.
+    + apply path_eqb_eq in E. subst q. simpl. rewrite andb_false_r. simpl.
+      destruct (mem_path parent cds) eqn:E2.
+      * rewrite mem_del_path, path_eqb_refl. reflexivity.
+      * rewrite Her, <- andb_assoc, <- Hcds. rewrite andb_false_r. reflexivity.
+    + simpl. destruct (mem_path parent cds).
+      * rewrite mem_del_path, E. simpl. apply Her.
+      * apply Her.
+  - intros a Ha. unfold K1 in Ha. rewrite inK_set in Ha. apply orb_false_iff in Ha. apply Ha.
+Qed.
+
+Lemma started_from_eq : forall b cds parent acc,
+  bd_started_from b cds parent acc =
+  let count := match cnt_get (bd_counts b) parent with Some n => n | None => 0 end in
+  let b1 := bd_with b (cnt_set (bd_counts b) parent (S count)) (bd_created b) (bd_err_created b)
+                    (bd_removed b) (bd_exists b) (bd_maybe b) (bd_removed_files b) in
+  if Nat.ltb 0 count then (b1, acc) else
+  let '(b2, acc2) :=
+    if mem_path parent cds then
+      (bd_with b1 (bd_counts b1) (add_path parent (bd_created b1)) (del_path parent (bd_err_created b1))
+               (bd_removed b1) (bd_exists b1) (bd_maybe b1) (del_path parent (bd_removed_files b1)),
+       acc ++ [parent])
+    else (b1, acc) in
+  match parent with
+  | [] => (b2, acc2)
+  | _ :: d => bd_started_from b2 cds d acc2
+  end.
+Proof. intros. destruct parent; reflexivity. Qed.
+
+Definition walk_post (g : path -> nat) (an0 an1 : path -> bool) (b' : bdirs) : Prop :=
+  NoDup (keys (bd_counts b')) /\ (forall d, cnt_good g (bd_counts b') d) /\
+  (forall q, inK (bd_counts b') q = true -> an1 q = true) /\
+  cr_ok (bd_counts b') (bd_created b') /\ er_ok an0 (bd_counts b') (bd_err_created b').
+
+Lemma start_walk : forall cds g an0 an1 parent b acc,
+  NoDup (keys (bd_counts b)) ->
+  (forall d, path_eqb parent d = false -> cnt_good g (bd_counts b) d) ->
+  1 <= g parent + nkids (bd_counts b) parent ->
+  cnt_get (bd_counts b) parent = mk (g parent + nkids (bd_counts b) parent - 1) ->
+  (forall q, inK (bd_counts b) q = true -> an1 q = true) ->
+  (forall a, sfx a parent = true -> an1 a = true) ->
+  cr_ok (bd_counts b) (bd_created b) -> er_ok an0 (bd_counts b) (bd_err_created b) ->
+  (forall a, sfx a parent = true -> inK (bd_counts b) a = false ->
+             mem_path a cds = negb (mem_path a base) && nonroot a) ->
+  walk_post g an0 an1 (fst (bd_started_from b cds parent acc)).
+Proof.
+  intros cds g an0 an1. induction parent as [|x d IH];
+  intros b acc Hnd Hgood Hpos Hget Han Hsfx Hcr Her Hcds; rewrite started_from_eq; cbv zeta.
+  - (* root *)
+    remember (g [] + nkids (bd_counts b) [] - 1) as m eqn:Em. destruct m as [|m]; simpl in Hget; rewrite Hget.
+    + assert (Hone : g [] + nkids (bd_counts b) [] = 1) by lia.
+      assert (Hc : mem_path [] cds = negb (mem_path [] base) && nonroot [])
+        by (apply Hcds; [apply sfx_refl|unfold inK; rewrite Hget; reflexivity]).
+      destruct (start_step cds g an0 an1 _ _ _ [] Hnd Hgood Hget Hone Han (Hsfx _ (sfx_refl _)) Hcr Her Hc)
+        as (H1 & H2 & H3 & _ & H5 & H6 & H7 & _).
+      assert (Hall : forall d, cnt_good g (cnt_set (bd_counts b) [] 1) d).
+      { intro d. destruct (path_eqb [] d) eqn:E.
+        - apply path_eqb_eq in E. subst d. exact H2.
+        - apply H3; [exact E|reflexivity]. }
+      simpl Nat.ltb. cbv iota.
+      destruct (mem_path [] cds); cbn [fst bd_with bd_counts bd_created bd_err_created] in *;
+        (split; [exact H1|]; split; [exact Hall|]; split; [exact H5|]; split; [exact H6|exact H7]).
+    + assert (Hn : S (S m) = g [] + nkids (bd_counts b) []) by lia.
+      destruct (start_stop g an0 an1 _ _ _ [] (S m) Hnd Hgood Hget Hn Han Hcr Her) as (H1 & H2 & H3 & H4 & H5).
+      simpl Nat.ltb. cbv iota. cbn [fst bd_with bd_counts bd_created bd_err_created].
+      split; [exact H1|]; split; [exact H2|]; split; [exact H3|]; split; [exact H4|exact H5].
+  - remember (g (x :: d) + nkids (bd_counts b) (x :: d) - 1) as m eqn:Em.
+    destruct m as [|m]; simpl in Hget; rewrite Hget.
+    + assert (Hone : g (x :: d) + nkids (bd_counts b) (x :: d) = 1) by lia.
+      assert (Hc : mem_path (x :: d) cds = negb (mem_path (x :: d) base) && nonroot (x :: d))
+        by (apply Hcds; [apply sfx_refl|unfold inK; rewrite Hget; reflexivity]).
+      destruct (start_step cds g an0 an1 _ _ _ (x :: d) Hnd Hgood Hget Hone Han (Hsfx _ (sfx_refl _)) Hcr Her Hc)
+        as (H1 & H2 & H3 & H4 & H5 & H6 & H7 & H8).
+      destruct (H4 d (is_child_tl x d)) as [H4a H4b].
+      assert (Hgood' : forall d', path_eqb d d' = false -> cnt_good g (cnt_set (bd_counts b) (x :: d) 1) d').
+      { intros d' E. destruct (path_eqb (x :: d) d') eqn:E2.
+        - apply path_eqb_eq in E2. subst d'. exact H2.
+        - apply H3; [exact E2|]. simpl. exact E. }
+      assert (Hsfx' : forall a, sfx a d = true -> an1 a = true)
+        by (intros a Ha; apply Hsfx; apply sfx_cons; exact Ha).
+      assert (Hcds' : forall a, sfx a d = true -> inK (cnt_set (bd_counts b) (x :: d) 1) a = false ->
+                                mem_path a cds = negb (mem_path a base) && nonroot a).
+      { intros a Ha Hk. apply Hcds; [apply sfx_cons; exact Ha|apply H8; exact Hk]. }
+      simpl Nat.ltb. cbv iota.
+      destruct (mem_path (x :: d) cds); apply IH; cbn [fst bd_with bd_counts bd_created bd_err_created] in *;
+        assumption.
+    + assert (Hn : S (S m) = g (x :: d) + nkids (bd_counts b) (x :: d)) by lia.
+      destruct (start_stop g an0 an1 _ _ _ (x :: d) (S m) Hnd Hgood Hget Hn Han Hcr Her) as (H1 & H2 & H3 & H4 & H5).
+      simpl Nat.ltb. cbv iota. cbn [fst bd_with bd_counts bd_created bd_err_created].
+      split; [exact H1|]; split; [exact H2|]; split; [exact H3|]; split; [exact H4|exact H5].
+Qed.
+End Dirs.
